@@ -98,6 +98,14 @@ func (w *world) cand(kind string) *channel.State {
 		}
 	case "addcol":
 		s.Balances[0] = append(s.Balances[0], big.NewInt(0))
+	case "negbal", "negbal2": // not encodable (a forced update is unchecked): nobody can sign such a state
+		n := len(s.Balances[0])
+		d := int64(1)
+		if kind == "negbal2" {
+			d = 2
+		}
+		s.Balances[0][0].Sub(s.Balances[0][0], big.NewInt(100+d))
+		s.Balances[0][n-1].Add(s.Balances[0][n-1], big.NewInt(100+d))
 	default:
 		panic(kind)
 	}
@@ -274,8 +282,38 @@ func ops(v variant) []op {
 		if k != "next" && k != "final" {
 			continue
 		}
+		if v.N < 2 {
+			continue
+		}
+		// the signer need not be the actor: participant 1's signature under an update by actor 0
+		// is checked against participant 1's key - and participant 0's signature is not participant 1's
+		for _, signer := range []int{1, 0} {
+			signer := signer
+			o = append(o, op{name: fmt.Sprintf("CheckUpdate(%s,actor=0,sigIdx=1,signedBy=%d)", k, signer), offered: func(w *world) bool { return hasCur(w) && capOK(w) },
+				arg: func(w *world) *channel.State { return w.cand(k) },
+				run: func(w *world, s *channel.State) error {
+					before := w.snapshot()
+					err := w.m.CheckUpdate(s, 0, fx.Sig(signer, s), 1)
+					if w.snapshot() != before {
+						return fmt.Errorf("ORACLE: CheckUpdate changed the machine")
+					}
+					if want := validNext(w, k, 0) && signer == 1; (err == nil) != want {
+						return fmt.Errorf("ORACLE: CheckUpdate(%s, actor 0, signature slot 1 signed by %d) returned %v, valid=%v", k, signer, err, want)
+					}
+					return fmt.Errorf("checked")
+				}, ref: refuse})
+		}
 	}
-	for _, k := range []string{"next", "final", "dropcol", "addcol"} {
+	// a candidate that passed CheckUpdate and is CHANGED afterwards is judged again by Update (the
+	// same object: a verdict remembered per object must not outlive the object's content)
+	o = append(o, op{name: "Update(checked-then-changed)", offered: func(w *world) bool { return hasCur(w) && capOK(w) },
+		arg: func(w *world) *channel.State { return w.cand("next") },
+		run: func(w *world, s *channel.State) error {
+			w.m.CheckUpdate(s, 0, fx.Sig(0, s), 0) //nolint:errcheck
+			s.Balances[0][0].Add(s.Balances[0][0], big.NewInt(1))
+			return w.m.Update(s, 0)
+		}, ref: refuse})
+	for _, k := range []string{"next", "final", "dropcol", "addcol", "negbal", "negbal2"} {
 		k := k
 		o = append(o, op{name: "ForceUpdate(" + k + ")", offered: func(w *world) bool { return hasCur(w) && capOK(w) },
 			arg: func(w *world) *channel.State { return w.cand(k) },
@@ -299,8 +337,8 @@ func ops(v variant) []op {
 		}
 		return err
 	}, ref: func(w *world, _ *channel.State) bool {
-		if !in(w.rPhase, channel.InitSigning, channel.Signing, channel.Progressing) {
-			return false
+		if !in(w.rPhase, channel.InitSigning, channel.Signing, channel.Progressing) || strings.HasPrefix(w.rStg, "ERR:") {
+			return false // (a state that cannot be encoded cannot be signed)
 		}
 		w.rSigs[w.v.Idx] = true
 		return true
@@ -343,7 +381,7 @@ func ops(v variant) []op {
 				}
 				return w.m.AddSig(channel.Index(i), sig)
 			}, ref: func(w *world, _ *channel.State) bool {
-				if !in(w.rPhase, channel.InitSigning, channel.Signing, channel.Progressing) || w.rSigs[i] {
+				if !in(w.rPhase, channel.InitSigning, channel.Signing, channel.Progressing) || w.rSigs[i] || strings.HasPrefix(w.rStg, "ERR:") {
 					return false
 				}
 				valid := kind == "valid"
